@@ -167,9 +167,10 @@ static size_t der_mutate(Rng *r, const uint8_t *cert, size_t certlen, uint8_t *o
 			g_dn[o].own = b; g_dn[o].ownlen = k;
 			snprintf(what, wl, "der_oid_%darcs@node%d", arcs, o);
 			break; }
-		case 7: { /* integer / bit string content variants */
+		case 7: { /* integer / bit / octet string content variants, including much longer ones */
 			if (g_nown >= 4) break;
-			uint8_t *b = g_own[g_nown++]; size_t k = rng_below(r, 80);
+			static const size_t grow[] = { 255, 256, 257, 300, 366, 367, 512, 590 };
+			uint8_t *b = g_own[g_nown++]; size_t k = rng_chance(r, 1, 2) ? grow[rng_below(r, 8)] : rng_below(r, 80);
 			int v = (int)rng_below(r, 3);
 			memset(b, v == 0 ? 0x00 : v == 1 ? 0xff : 0x80, k);
 			d->own = b; d->ownlen = k; d->constructed = 0;
@@ -254,6 +255,26 @@ static size_t hs_mutate(Rng *r, uint8_t *rec, size_t len, size_t cap, int tls13,
 		memcpy(body, o, n);
 		blen = n;
 		consistent = 1;
+	} else if (ht != TLS_handshake_certificate && kind >= 11 && blen > 12) {
+		/* messages that embed DER (SM2 ciphertext in ClientKeyExchange, signatures in ServerKeyExchange /
+		 * CertificateVerify): find the embedded SEQUENCE, mutate its tree, re-frame the preceding length */
+		size_t at = 0;
+		for (size_t i = 0; i + 4 < blen; i++) {
+			if (body[i] != 0x30) continue;
+			size_t l = body[i + 1], hl = 2;
+			if (l == 0x81) { l = body[i + 2]; hl = 3; } else if (l == 0x82) { l = ((size_t)body[i + 2] << 8) | body[i + 3]; hl = 4; } else if (l >= 0x80) continue;
+			if (i + hl + l == blen) { at = i; break; }
+		}
+		if (at) {
+			static uint8_t md[4096];
+			size_t n = der_mutate(r, body + at, blen - at, md, sizeof(md), what, wl);
+			if (n && at + n + 9 < cap) {
+				memcpy(body + at, md, n);
+				/* a 16-bit vector length usually precedes the DER blob */
+				if (at >= 2 && ((((size_t)body[at - 2] << 8) | body[at - 1]) == blen - at) && consistent) { body[at - 2] = (uint8_t)(n >> 8); body[at - 1] = (uint8_t)n; }
+				blen = at + n;
+			}
+		}
 	} else switch (kind % 8) {
 	case 0: { int k = 1 + (int)rng_below(r, 8);
 		for (int i = 0; i < k && blen; i++) body[rng_below(r, (uint32_t)blen)] = (uint8_t)rng_u64(r);
